@@ -66,11 +66,13 @@ func (s *syncStore[H]) Append(ctx context.Context, headers ...H) error {
 	//	However, Syncer has yet to be refactored to not assume those invariants and until then
 	//	this method is a shim that allows using store with old assumptions.
 	//  To be reworked by bsync.
-	if headers[0].Height() >= head.Height() {
+	if headers[len(headers)-1].Height() > head.Height() {
 		for _, h := range headers {
-			if h.Height() == head.Height() {
+			if h.Height() <= head.Height() {
 				// the head itself may get here twice: as a new network head stored directly and
 				// as a pending header applied by the syncing routine. It is applied already.
+				// The same goes for a requested range whose first headers got stored via another
+				// route (e.g. as bifurcation intermediates) while the request was in flight.
 				continue
 			}
 			if h.Height() != head.Height()+1 {
